@@ -35,6 +35,17 @@ type BStress struct {
 	Timeout  bool  `json:"timeout,omitempty"`
 }
 
+// brief: the run without the long lists (the replay needs only its parameters)
+func (o BStress) brief() map[string]any {
+	sk := o.Skipped
+	if len(sk) > 8 {
+		sk = sk[:8]
+	}
+	return map[string]any{"n": o.N, "workers": o.Workers, "fail_at": o.FailAt, "slow": o.Slow,
+		"executed": o.judged(), "executed_total": len(o.Executed), "skipped_total": len(o.Skipped), "skipped_first": sk,
+		"fake": o.Fake, "wrong": o.Wrong, "posts": o.Posts, "post_len_ok": o.PostLen, "timeout": o.Timeout}
+}
+
 func zlist(l []int) string {
 	s := make([]string, len(l))
 	for i, x := range l {
@@ -43,9 +54,42 @@ func zlist(l []int) string {
 	return "[" + strings.Join(s, "; ") + "]"
 }
 
+// the executed list as judged in Coq: everything up to the smallest skipped index, and at most
+// 1000 entries above it (a cut that can neither hide nor create a violation of a bound < 1000)
+func (o BStress) judged() []int {
+	min := o.N
+	for _, s := range o.Skipped {
+		if s < min {
+			min = s
+		}
+	}
+	var out []int
+	above := 0
+	for _, e := range o.Executed {
+		if e > min {
+			above++
+			if above > 1000 {
+				continue
+			}
+		}
+		out = append(out, e)
+	}
+	return out
+}
+
 func (o BStress) Coq() string {
+	min := []int{}
+	if len(o.Skipped) > 0 {
+		m := o.Skipped[0]
+		for _, s := range o.Skipped {
+			if s < m {
+				m = s
+			}
+		}
+		min = []int{m}
+	}
 	return fmt.Sprintf("{| bs_n := %d; bs_workers := %d;\n     bs_executed := %s;\n     bs_skipped := %s;\n     bs_fake := %d; bs_wrong := %d; bs_posts := %d; bs_post_len_ok := %v |}%%Z",
-		o.N, o.Workers, zlist(o.Executed), zlist(o.Skipped), o.Fake, o.Wrong, o.Posts, o.PostLen && !o.Timeout)
+		o.N, o.Workers, zlist(o.judged()), zlist(min), o.Fake, o.Wrong, o.Posts, o.PostLen && !o.Timeout)
 }
 
 // runBatchStress: n items, c workers, stop mode.  The items in slow block until the failing item
@@ -159,7 +203,7 @@ func batchStressReplay(prop, file, out string) error {
 	}
 	var o BStress
 	for try := 0; try < 8; try++ {
-		o = runBatchStress(p.N, p.Workers, p.FailAt, p.Slow, time.Duration(200+150*try)*time.Microsecond, try%2 == 0)
+		o = runBatchStress(p.N, p.Workers, p.FailAt, p.Slow, time.Duration(20+10*try)*time.Millisecond, try%2 == 0)
 		min := p.N
 		for _, s := range o.Skipped {
 			if s < min {
@@ -192,7 +236,7 @@ func batchStressReplay(prop, file, out string) error {
 		[]coqCase{{id: 0, scen: "0", obs: o.Coq()}}, nil); err != nil {
 		return err
 	}
-	return writeJSONL(filepath.Join(out, "cases.jsonl"), []any{map[string]any{"id": 0, "scen": 0, "obs": o}})
+	return writeJSONL(filepath.Join(out, "cases.jsonl"), []any{map[string]any{"id": 0, "scen": 0, "obs": o.brief()}})
 }
 
 func batchStressMain(prop, tier string, seed uint64, out, replay string) error {
@@ -203,11 +247,11 @@ func batchStressMain(prop, tier string, seed uint64, out, replay string) error {
 	st := newStats()
 	var cases []coqCase
 	var jl []any
-	reps := 3
-	n := 6000
+	reps := 2
+	n := 200000
 	if tier == "thorough" {
-		reps = 12
-		n = 20000
+		reps = 10
+		n = 400000
 	}
 	id := 0
 	for rep := 0; rep < reps; rep++ {
@@ -218,9 +262,9 @@ func batchStressMain(prop, tier string, seed uint64, out, replay string) error {
 			for i := 0; i < failAt && len(slow) < c-1; i++ {
 				slow = append(slow, i)
 			}
-			rel := time.Duration(100+r.intn(900)) * time.Microsecond
+			rel := time.Duration(20+r.intn(40)) * time.Millisecond
 			o := runBatchStress(n, c, failAt, slow, rel, rep%2 == 0)
-			jl = append(jl, map[string]any{"id": id, "scen": id, "obs": o,
+			jl = append(jl, map[string]any{"id": id, "scen": id, "obs": o.brief(),
 				"tags": []string{fmt.Sprintf("workers=%d", c), fmt.Sprintf("n=%d", n)}})
 			cases = append(cases, coqCase{id: id, scen: fmt.Sprint(id), obs: o.Coq()})
 			st.count(fmt.Sprintf("workers=%d", c))
@@ -230,17 +274,13 @@ func batchStressMain(prop, tier string, seed uint64, out, replay string) error {
 				st.DistinctNontrivial++
 			}
 			if len(st.Samples) < 2 {
-				s := o
-				if len(s.Skipped) > 8 {
-					s.Skipped = s.Skipped[:8]
-				}
-				st.Samples = append(st.Samples, s)
+				st.Samples = append(st.Samples, o.brief())
 			}
 			id++
 		}
 	}
 	st.Evaluations = len(cases)
-	st.Scope = fmt.Sprintf("stop mode, %d items, 2/3/4/8 workers, the first workers-1 items held in flight until 0.1..1 ms after an early item failed, all other items instant; free-running (no gating); configured through options and through builder calls", n)
+	st.Scope = fmt.Sprintf("stop mode, %d items, 2/3/4/8 workers, the first workers-1 items held in flight until 20..60 ms after an early item failed (the rest of the queue takes several times longer to drain), all other items instant; free-running (no gating); configured through options and through builder calls", n)
 	st.Rule = "seeded stress runs; non-trivial when at least one item was skipped"
 	nsh, err := writeShards(out, prop, "BatchStressCorr", "bxscen", "bstress", "spec_C09_stress", "spec_C09_stress", cases, nil)
 	if err != nil {
